@@ -47,7 +47,19 @@ def ambiguous_cycle_entry(case, msg, observed=None):
     return False
 
 
-MATCHERS = {f.__name__: f for f in (waiter_with_edge_default, ambiguous_cycle_entry)}
+def empty_map_silent(case, msg, observed=None):
+    """runner.map with an empty list of combinations returns before creating the dispatcher."""
+    run = case.get("run") if isinstance(case, dict) else None
+    if not run or run.get("map") is None or "empty input list" not in (msg or ""):
+        return False
+    import itertools
+    over = run["map"]["over"]
+    lists = [run["inputs"].get(p, []) for p in over]
+    n = min(len(x) for x in lists) if run["map"].get("mode", "zip") == "zip" else len(list(itertools.product(*lists)))
+    return n == 0
+
+
+MATCHERS = {f.__name__: f for f in (waiter_with_edge_default, ambiguous_cycle_entry, empty_map_silent)}
 
 
 def classify(ctx, case, msg, observed=None):
